@@ -55,9 +55,23 @@ func selfTest() error {
 	}
 	for _, t := range tests {
 		o := observe(e, fl, t.resp)
-		if got := strings.Join(o.creds, " "); got != t.creds || o.class != t.class {
+		if got := strings.Join(o.creds, " "); got != t.creds || o.class != t.class || !o.single {
 			return fmt.Errorf("self-test %q: got class %s creds [%s], want %s [%s]", t.what, o.class, got, t.class, t.creds)
 		}
+	}
+	// a second answer started after the first one must be seen
+	double := opfix.Do(http.HandlerFunc(func(w http.ResponseWriter, r *http.Request) {
+		w.Header().Set("Content-Type", "application/json")
+		w.WriteHeader(500)
+		w.Write([]byte(`{"error":"server_error"}` + "\n"))
+		w.WriteHeader(200)
+	}), httptest.NewRequest(http.MethodGet, opfix.Issuer+"/x", nil))
+	if observe(e, fl, double).single {
+		return fmt.Errorf("self-test: a second WriteHeader was not noticed")
+	}
+	twoDocs := synth(400, map[string]string{"Content-Type": "application/json"}, `{"error":"server_error"}`+"\n"+`{"error":"invalid_request"}`)
+	if observe(e, fl, twoDocs).single {
+		return fmt.Errorf("self-test: a second JSON document in the body was not noticed")
 	}
 	return nil
 }
